@@ -199,18 +199,20 @@ func uuidsFromDir(dir string) (uuids map[string]bool, err error) {
 
 func isFileAndExist(path string) bool {
 	stat, err := os.Stat(path)
-	if os.IsNotExist(err) {
+	// stat is nil on any error, not only when the file does not exist
+	// (invalid, too long or not-a-directory paths)
+	if err != nil {
 		return false
 	}
-	return stat.Mode().IsRegular() && err == nil
+	return stat.Mode().IsRegular()
 }
 
 func isDirAndExist(path string) bool {
 	stat, err := os.Stat(path)
-	if os.IsNotExist(err) {
+	if err != nil {
 		return false
 	}
-	return stat.Mode().IsDir() && err == nil
+	return stat.Mode().IsDir()
 }
 
 func dbgLock(lock string) {
